@@ -13,7 +13,8 @@ from vf import env  # noqa
 
 FAMILIES = ["random", "newest-unrecoverable", "two-recoverable", "evidence-then-more", "random", "replay",
             "down", "all-newest", "newest-unrecoverable", "evidence-then-more", "two-recoverable", "random",
-            "all-oldest", "replay", "evidence-then-more"]
+            "all-oldest", "replay", "evidence-then-more", "update-vs-newer", "held-modify", "update-vs-newer",
+            "held-modify"]
 
 
 def run(ck):
@@ -50,11 +51,13 @@ def run(ck):
         publish_mod.os = real_os
         undo_time()
     ck.observe("eventual-exceptions", len(env.evq.exceptions))
-    ck.require_monitor("publish-seqnum-above-survey", "read-returns-best-located", "read-keeps-searching-on-newer-evidence")
+    ck.require_monitor("publish-seqnum-above-survey", "read-returns-best-located", "read-keeps-searching-on-newer-evidence",
+                       "modify-reads-best-located", "modify-result-derives-from-best-located")
     ck.require_reach("publish-saw-unrecoverable-newer-version", "read-with-two-recoverable-versions",
                      "read-extended-search-on-newer-evidence", "read-returned-older-than-newest-published",
                      "read-returned-newest", "publish-ok", "exact-schedule", "free-schedule",
-                     "server-answered-from-older-snapshot")
+                     "server-answered-from-older-snapshot", "update-ok",
+                     "held-version-still-recoverable-next-to-a-newer-one", "held-modify-result-derives-from-newest")
 
 
 def gen_params(rng):
@@ -134,6 +137,7 @@ class History(object):
         newest = h - 1
         k = p["k"]
         states = {}
+        self.extras = {}          # (server index, shnum) -> history index: additional share files
         holders = list(self.holders)
 
         def shares_of(idxs, j=newest):
@@ -142,7 +146,30 @@ class History(object):
                 s |= set(self.snaps[j].get(idx, {}).keys())
             return s
 
-        if fam == "all-newest" or h == 1 and fam in ("newest-unrecoverable", "two-recoverable", "evidence-then-more",
+        if fam == "held-modify":
+            fam = rng.choice(["all-newest", "all-newest", "random", "two-recoverable"]) if h > 1 else "all-newest"
+        if fam == "update-vs-newer" and h == 1:
+            fam = "all-newest"
+        if fam == "update-vs-newer":
+            # an older recoverable version, the newest one below k distinct shares, and -- so that an in-place update
+            # of the older version has something to patch for every share number it will write -- a copy of the older
+            # version's share for each share number that only exists in the newest version
+            rng.shuffle(holders)
+            new_on = []
+            for idx in holders:
+                if len(shares_of(new_on + [idx])) < k:
+                    new_on.append(idx)
+            old = rng.randrange(newest)
+            for idx in holders:
+                states[idx] = ("v", newest) if idx in new_on else ("v", old)
+            for idx in new_on:
+                for sh in self.snaps[newest].get(idx, {}):
+                    owner_raw = self.snaps[old].get(idx, {}).get(sh)
+                    cands = [vs.index for vs in self.g.servers if vs.index != idx
+                             and sh not in self.snaps[-1].get(vs.index, {}) and (vs.index, sh) not in self.extras]
+                    if owner_raw is not None and cands:
+                        self.extras[(rng.choice(cands), sh)] = (old, idx)
+        elif fam == "all-newest" or h == 1 and fam in ("newest-unrecoverable", "two-recoverable", "evidence-then-more",
                                                      "all-oldest", "replay"):
             for idx in holders:
                 states[idx] = ("v", newest)
@@ -252,14 +279,25 @@ class History(object):
                     vs.add_fault("raise", method="slot_readv")
         if plan:
             M.install_lying_hook(g, self.si, plan, lambda: self.ck.hit("server-answered-from-older-snapshot"))
+        import os
+        for (idx, sh), (j, owner) in sorted(getattr(self, "extras", {}).items()):
+            vs = g.servers[idx]
+            if not vs.connected:
+                continue
+            ms = M.MutShare(raw=self.snaps[j][owner][sh])
+            ms.container[32:52] = vs.serverid                              # a container of the target server
+            ms.container[52:84] = self.node.get_write_enabler(vs.iserver)
+            os.makedirs(vs.sharedir(self.si), exist_ok=True)
+            ms.save(os.path.join(vs.sharedir(self.si), "%d" % sh))
 
     # ------------------------------------------------------------ one round
     def one_round(self, fam):
         ck, rng, g, M = self.ck, self.rng, self.g, self.M
+        fam0 = fam
         states = self.compose(fam)
         g.sched.settle()          # nothing of an earlier operation may still be in flight
         self.install(states)
-        exact = rng.random() < .75
+        exact = rng.random() < .75 or fam0 in ("update-vs-newer", "held-modify")
         if exact:
             g.sched.chooser = M.ev_first_chooser(self.sched_rng)
             ck.hit("exact-schedule")
@@ -269,15 +307,26 @@ class History(object):
             ck.hit("free-schedule")
         ops = rng.choice([["read2", "write"], ["dbv", "write"], ["read2", "dbv"], ["read2", "read2", "write"],
                           ["write", "read2"], ["read2"], ["dbv", "read2", "write"]])
+        if fam0 == "update-vs-newer":
+            ops = ["update", "read2"] if self.p["fmt"] == "MDMF" else ["write", "read2"]
+        elif fam0 == "held-modify":
+            ops = ["held-modify"]
+        elif self.p["fmt"] == "MDMF" and rng.random() < .2:
+            ops = ops + ["update"]
         desc = dict(k=self.p["k"], n=self.p["n"], fmt=self.p["fmt"], nservers=self.p["nservers"],
                     history_seqnums=[v[0] for v in self.vid], family=fam, exact_schedule=exact,
                     states={"s%02d" % i_: list(s) for i_, s in sorted(states.items())},
+                    extra_shares={"s%02d/sh%d" % k_: v[0] for k_, v in sorted(self.extras.items())},
                     permuted_order=self.order)
         nontrivial = any(s != ("v", len(self.snaps) - 1) for idx, s in states.items() if idx in self.holders)
         wrote = None
         for op in ops:
             if op == "write":
                 wrote = self.op_write(desc, exact, wrote)
+            elif op == "update":
+                wrote = self.op_update(desc, exact, wrote)
+            elif op == "held-modify":
+                self.op_held_modify(desc, exact)
             else:
                 self.op_read(op, desc, exact, wrote)
             g.sched.settle()      # let late answers / straggling writes of this operation land before the next one
@@ -431,6 +480,11 @@ class History(object):
         new = b"NEW" + self.rng.randbytes(self.rng.randint(5, 300))
         n0 = len(g.calls)
         st, res = g.wait(node.overwrite(MutableData(new)), horizon=4 * 3600.0)
+        return self.judge_publish(n0, st, res, desc, exact, wrote, new, "overwrite")
+
+    def judge_publish(self, n0, st, res, desc, exact, wrote, new, what):
+        """Oracle (a) for one publishing operation whose wire records start at n0; returns the new `wrote`."""
+        ck, g, M = self.ck, self.g, self.M
         window = g.calls[n0:]
         writes = [r for r in window if M.has_writes(r)]
         if st != "ok":
@@ -444,7 +498,7 @@ class History(object):
             return (max(tried), new) if tried else wrote
         ck.hit("publish-ok")
         if not writes:
-            ck.violation("publish-succeeded-without-writing", "overwrite() succeeded but no write request was sent",
+            ck.violation("publish-succeeded-without-writing", what + "() succeeded but no write request was sent",
                          dict(desc))
             return wrote
         t_first = min(r["t_call"] for r in writes)
@@ -463,9 +517,9 @@ class History(object):
                 ck.observe("publish-wrote-no-header")
             elif seen and min(written) <= max(seen):
                 ck.violation("publish-seqnum-not-above-every-seqnum-its-survey-saw",
-                             "publish wrote seqnum %s although its survey was told of seqnums %s (recoverable: %s)"
-                             % (sorted(written), seen, [v[0] for v in best]),
-                             dict(desc, written=sorted(written), survey_seqnums=seen))
+                             "%s wrote seqnum %s although its survey was told of seqnums %s (recoverable: %s)"
+                             % (what, sorted(written), seen, [v[0] for v in best]),
+                             dict(desc, op=what, written=sorted(written), survey_seqnums=seen))
             if len(written) > 1:
                 ck.violation("publish-wrote-several-seqnums", "one publish wrote seqnums %s" % sorted(written), dict(desc))
         else:
@@ -481,6 +535,136 @@ class History(object):
         return (max(written), new) if written else wrote
 
 
+
+    # ------------------------------------------------------------ MDMF in-place update
+    def op_update(self, desc, exact, wrote):
+        """get_best_mutable_version().update(data, offset) by a fresh client; oracle (a) on the sequence number."""
+        from allmydata.mutable.publish import MutableData
+        ck, g, M, p, rng = self.ck, self.g, self.M, self.p, self.rng
+        c2 = g.make_client(k=p["k"], happy=1, n=p["n"], mutable_format=p["fmt"])
+        node = c2.create_node_from_uri(self.rw_uri)
+        n0 = len(g.calls)
+        st, mfv = g.wait(node.get_best_mutable_version(), horizon=4 * 3600.0)
+        if st != "ok":
+            ck.hit("update-no-version-" + st)
+            return wrote
+        seq0 = mfv.get_sequence_number()
+        base = None
+        for j, v in enumerate(self.vid):
+            if v[0] == seq0:
+                base = self.plain[j]
+        if base is None and wrote is not None and wrote[0] == seq0:
+            base = wrote[1]
+        if base is None or len(base) == 0:
+            ck.observe("update-base-content-unknown")
+            return wrote
+        off = rng.choice([0, 1, len(base) // 2, max(0, len(base) - 1), len(base), rng.randrange(len(base) + 1)])
+        data = rng.randbytes(rng.choice([1, 7, p["segsize"], rng.randint(1, 120)]))
+        new = base[:off] + data + base[off + len(data):]
+        while new == base or new in self.plain:       # the harness tells versions apart by their content
+            data = rng.randbytes(len(data))
+            new = base[:off] + data + base[off + len(data):]
+        st, res = g.wait(mfv.update(MutableData(data), off), horizon=4 * 3600.0)
+        ck.hit("update-" + st)
+        if st == "err":
+            ck.hit("update-err:" + res.type.__name__)
+        return self.judge_publish(n0, st, res, desc, exact, wrote, new, "update")
+
+    # ------------------------------------------------------------ a version object held across another writer's publish
+    def op_held_modify(self, desc, exact):
+        from allmydata.mutable.publish import MutableData
+        ck, g, M, p, rng = self.ck, self.g, self.M, self.p, self.rng
+        k = p["k"]
+        cA = g.make_client(k=k, happy=1, n=p["n"], mutable_format=p["fmt"])
+        nodeA = cA.create_node_from_uri(self.rw_uri)
+        st, mfv = g.wait(nodeA.get_best_mutable_version(), horizon=4 * 3600.0)
+        if st != "ok":
+            ck.hit("held-modify-no-version")
+            return
+        held_seq = mfv.get_sequence_number()
+        # the other writer reaches only some servers: enough stale shares of the held version stay behind
+        on_disk = {}
+        for (idx, shnum, ms) in M.disk_shares(g, self.si):
+            if ms.fmt is not None and g.servers[idx].connected and ms.f["seqnum"] == held_seq:
+                on_disk.setdefault(idx, set()).add(shnum)
+        order = [idx for idx in self.order if idx in on_disk]
+        rng.shuffle(order)
+        hide, kept = [], set()
+        want = rng.choice([k, k, k + 1, max(1, k - 1), 0])     # k-1 / 0: the held version does not stay recoverable
+        for idx in order:
+            if len(kept) >= want:
+                break
+            hide.append(idx)
+            kept |= on_disk[idx]
+        for idx in hide:
+            g.servers[idx].hidden = True
+        contentB = b"OTHER-WRITER:" + rng.randbytes(rng.randint(5, 200))
+        try:
+            cB = g.make_client(k=k, happy=1, n=p["n"], mutable_format=p["fmt"])
+            stB, r = g.wait(cB.create_node_from_uri(self.rw_uri).overwrite(MutableData(contentB)), horizon=4 * 3600.0)
+            g.sched.settle()
+        finally:
+            for idx in hide:
+                g.servers[idx].hidden = False
+        if stB != "ok":
+            ck.hit("held-modify-other-writer-failed")
+            return
+        # what is on the grid now, by the independent parser and the harness's record
+        content_of = {(v[0], v[1]): self.plain[j] for j, v in enumerate(self.vid)}
+        for (idx, shnum, ms) in M.disk_shares(g, self.si):
+            if ms.fmt is not None and (ms.f["seqnum"], bytes(ms.f["root_hash"])) not in content_of:
+                content_of[(ms.f["seqnum"], bytes(ms.f["root_hash"]))] = contentB
+        marker = b"<appended-by-the-holder>"
+        calls = []
+
+        def modifier(old, servermap, first_time):
+            calls.append((env.reactor.seconds(), old, first_time))
+            return old + marker
+        n1 = len(g.calls)
+        st, res = g.wait(mfv.modify(modifier), horizon=4 * 3600.0)
+        ck.hit("held-modify-" + st)
+        g.sched.settle()
+        w = dict(desc, op="held-modify", held_seqnum=held_seq, hidden_from_other_writer=sorted(hide),
+                 stale_shares_left=sorted(kept), status=st,
+                 error=(res.type.__name__ + ": " + str(res.value)[:100]) if st == "err" else None)
+        if not calls:
+            ck.hit("held-modify-modifier-not-called")
+            return
+        if not exact:
+            ck.skip("held-modify-under-free-schedule-survey-set-not-exact")
+            return
+        ck.mon("modify-reads-best-located")
+        t_mod, old_seen, first_time = calls[0]
+        recs = self.survey_records(n1, t_mod)
+        loc = M.locate(recs)
+        best, newer = M.best_located(loc)
+        if not best or any(v not in content_of for v in best):
+            ck.skip("held-modify-best-located-version-content-unknown")
+            return
+        allowed = [content_of[v] for v in best]
+        w.update(located={"%d/%s" % (v[0], v[1][:3].hex()): sorted(e["shnums"]) for v, e in loc.items()},
+                 best_located=[v[0] for v in best])
+        if len(kept) >= k and any(v[0] == held_seq for v in loc) and best[0][0] > held_seq:
+            ck.hit("held-version-still-recoverable-next-to-a-newer-one")
+        if old_seen not in allowed:
+            which = [v[0] for v, c in content_of.items() if c == old_seen]
+            ck.violation("modify-read-a-version-that-is-not-the-best-its-survey-located",
+                         "the modifier of a held MutableFileVersion was given the content of seqnum %s although its own "
+                         "survey located recoverable seqnum %s" % (which or "?", [v[0] for v in best]), w)
+            return
+        if st == "ok":
+            ck.mon("modify-result-derives-from-best-located")
+            g.sched.settle()
+            c3 = g.make_client(k=k, happy=1, n=p["n"], mutable_format=p["fmt"])
+            st3, final = g.wait(c3.create_node_from_uri(self.ro_uri).download_best_version(), horizon=4 * 3600.0)
+            if st3 == "ok" and final not in [c + marker for c in allowed]:
+                ck.violation("modify-result-does-not-derive-from-the-best-located-version",
+                             "after a successful modify() of a held version a fresh read returns content that is not "
+                             "<best located version> + marker", w)
+            elif st3 == "ok":
+                ck.hit("held-modify-result-derives-from-newest")
+
+
 # MUST_CATCH (selftest/breaks_c11.py; the unchanged tree shows no violation):
 #   c11-seqnum-from-best-recoverable          publish: highest_seqnum()+1 -> best recoverable seqnum+1   caught  publish-seqnum-not-above-every-seqnum-its-survey-saw
 #   c11-highest-seqnum-ignores-unrecoverable  ServerMap.highest_seqnum looks at recoverable versions only caught  same key
@@ -488,3 +672,5 @@ class History(object):
 #   c11-mode-read-picks-lowest                best_recoverable_version returns the lowest                 caught  same key
 #   c11-mode-read-ignores-newer               MODE_READ does not extend the search on newer evidence      caught  mode-read-finished-with-newer-evidence-and-unqueried-servers
 #   c11-mode-read-newer-evidence-off-by-one   evidence threshold highest+1                                caught  same key
+#   seeded/C11-3 (Publish.update(): version[0]+1)                      caught  publish-seqnum-not-above-every-seqnum-its-survey-saw  (op update, family update-vs-newer)
+#   seeded/C11-4 (_modify_once keeps a still-recoverable held version)  caught  modify-read-a-version-that-is-not-the-best-its-survey-located  (op held-modify)
